@@ -2,7 +2,7 @@
 (* C17, stage T: behaviours RECORDED on the real encoder/decoder and on real Result objects, for
    seeded random inputs that are NOT restricted to the pools of Serialize.tla (random nesting up to 3,
    lists up to length 4, arrays of random dtype and random shape up to 3-D incl. zero-sized axes,
-   random update histories up to length 5 with random type mixes), validated by TLC against the same
+   random update / MERGE histories up to length 5 with random type mixes), validated by TLC against the same
    functions Enc / Dec / RState of the specification.
 
    Trace file (JSON array), one event per trace:
@@ -32,8 +32,12 @@ TreeOf(x) == CASE x.j = "list" -> JList([i \in 1..Len(x.items) |-> TreeOf(x.item
                [] x.j = "bag"  -> JBag({TreeOf(x.elems[i]) : i \in 1..Len(x.elems)})
                [] x.j = "obj"  -> JObj([i \in 1..Len(x.keys) |-> x.keys[i]], [i \in 1..Len(x.vals) |-> TreeOf(x.vals[i])])
                [] OTHER -> [j |-> x.j, n |-> x.n, d |-> x.d, s |-> x.s]
+RECURSIVE RdOf(_)
 RdOf(r) == [name |-> r.name, type |-> r.type, acc |-> r.acc, nch |-> r.nch,
-            hist |-> [i \in 1..Len(r.hist) |-> [v |-> ValOf(r.hist[i].v), tot |-> ValOf(r.hist[i].tot)]]]
+            hist |-> [i \in 1..Len(r.hist) |->
+                        IF r.hist[i].op = "merge"
+                        THEN [op |-> "merge", v |-> NoneV, tot |-> Num("PyInt", 1, 1), rd |-> <<RdOf(r.hist[i].rd[1])>>]
+                        ELSE [op |-> "upd", v |-> ValOf(r.hist[i].v), tot |-> ValOf(r.hist[i].tot), rd |-> <<>>]]]
 
 \* first clause of the specification the recorded event does not satisfy ("" = conforms)
 ValueClause(e) ==
